@@ -170,6 +170,20 @@ func versVariants(scheme string, ops, vs []string, full bool) []versVariant {
 			add("blank-all", bl)
 		}
 	}
+	// more than 16 pieces: 20 empty constraints behind, in front, and 20 repeats of the first
+	{
+		many := append([]string{}, cs...)
+		front := []string{}
+		rep := append([]string{}, cs...)
+		for i := 0; i < 20; i++ {
+			many = append(many, "")
+			front = append(front, "")
+			rep = append(rep, cs[0])
+		}
+		add("empty-many-behind", many)
+		add("empty-many-front", append(front, cs...))
+		add("dup-many", rep)
+	}
 	// combined: reversed order + a space + a duplicate + an empty constraint
 	if n >= 2 {
 		var parts []string
@@ -328,7 +342,7 @@ func init() {
 				"max_constraints":               c16MaxN(tier),
 			}
 		},
-		Rule:        "base ranges = every spec-valid comparator shape of length 1..n (quick 3, thorough 6; at n=5 every 4th shape, at n=6 every 64th shape with all 720 permutations) instantiated from the increasing pools of C04 (pairwise non-equivalent versions); variants of each: ALL permutations of the constraints; space insertion at every subset of slots (before, inside a 2-character operator, between operator and version, inside the version, after) for <= 10 slots, else every single slot, every pair of slots and all slots; every non-empty subset of constraints duplicated (adjacent / at the far end / with different spacing); an empty constraint in every subset of gaps, blank constraints; one combined variant; plus the match-all range '*' padded with 0-2 spaces on either side and surrounded by empty / blank constraints in every position. Every variant is evaluated on every probe and must give the same (result, error-ness) as the canonical spelling. states = base ranges, transitions = variants, distinct_nontrivial = comparisons whose canonical result is true.",
+		Rule:        "base ranges = every spec-valid comparator shape of length 1..n (quick 3, thorough 6; at n=5 every 4th shape, at n=6 every 64th shape with all 720 permutations) instantiated from the increasing pools of C04 (pairwise non-equivalent versions); variants of each: ALL permutations of the constraints; space insertion at every subset of slots (before, inside a 2-character operator, between operator and version, inside the version, after) for <= 10 slots, else every single slot, every pair of slots and all slots; every non-empty subset of constraints duplicated (adjacent / at the far end / with different spacing); an empty constraint in every subset of gaps, blank constraints; 20 empty constraints behind / in front and 20 repeats of one constraint (more than 16 pieces); one combined variant; plus the match-all range '*' padded with 0-2 spaces on either side and surrounded by empty / blank constraints in every position. Every variant is evaluated on every probe and must give the same (result, error-ness) as the canonical spelling. states = base ranges, transitions = variants, distinct_nontrivial = comparisons whose canonical result is true.",
 		Assumptions: []string{"only the space character is inserted (TAB/CR/LF are non-printable and belong to C17)", "n > 5 and sampled permutations beyond 6 constraints are not explored"},
 	})
 }
